@@ -9,7 +9,7 @@ FAMILY = "refactor"
 GEN_GROUPS = ["Refactor"]
 
 NEW_NAMES = ["q", "zz9", "renamedToSomethingMuchLonger", "go2", "x_y", "fetchAll"]
-COMMENTS = ["é note", "ünï — ✓", "日本語", "run();", "find(", "plain"]
+COMMENTS = ["é note", "ünï — ✓", "日本語", "run();", "find(", "plain", "😀 two units in UTF-16", "𝒳𝒴 astral"]
 
 
 # ------------------------------------------------------------------------------------------------
